@@ -171,6 +171,9 @@ func nontrivial(c Case) bool {
 func TestCheck(t *testing.T) {
 	r := vkit.Start("C15")
 	defer r.Finish(t)
+	if r.ReplayCold() {
+		return
+	}
 	if r.Replay != "" {
 		var c Case
 		if err := r.LoadReplay(&c); err != nil {
@@ -360,6 +363,8 @@ func TestCheck(t *testing.T) {
 		})
 	})
 	r.Sampled()
+
+	r.ColdPhase(coldFirst)
 
 	r.Phase("C: rapid", func() {
 		ymd := rapid.Custom(func(rt *rapid.T) YMD {
